@@ -163,6 +163,56 @@ int pipe_write(int pipe, const uint8_t *buffer, size_t size)
   ENS("C14/pipe_write.nothing_else", g.child_pid == OLD(g.child_pid) && g.child_reaped == OLD(g.child_reaped) && g.child_live == OLD(g.child_live) && g.nsig == OLD(g.nsig) && g.reaps == OLD(g.reaps) && g.poll_calls == OLD(g.poll_calls))
   ;
 
+/* -------------------------- redirect.c / redirect.posix.c ----------------- */
+
+#define FD_NEW(fd) (FD_OK(fd) && (OLD(g.open) & BIT(fd)) == 0 && (g.open & BIT(fd)) != 0 && (g.lib & BIT(fd)) != 0)
+#define ONLY_NEW1(a) (g.open == (OLD(g.open) | MASK_OF(a)) && g.lib == (OLD(g.lib) | MASK_OF(a)))
+#define ONLY_NEW2(a, b) (g.open == (OLD(g.open) | MASK_OF(a) | MASK_OF(b)) && g.lib == (OLD(g.lib) | MASK_OF(a) | MASK_OF(b)))
+#define STREAM_OK(s) ((s) == REPROC_STREAM_IN || (s) == REPROC_STREAM_OUT || (s) == REPROC_STREAM_ERR)
+/* direction the child needs: stdin is read, stdout/stderr are written */
+#define CHILD_DIR_OK(s, fd) ((s) == REPROC_STREAM_IN ? (g.rd & MASK_OF(fd)) != 0 : (g.wr & MASK_OF(fd)) != 0)
+#define RTYPE (RD_T(redirect))
+#define PARENT_FALLS_BACK (g.cfg_std_fileno[stream] < 0)
+#define OPENS_FILE (RTYPE == RT_DISCARD || RTYPE == RT_PATH || (RTYPE == RT_PARENT && PARENT_FALLS_BACK))
+
+CONTRACT(redirect_init)
+int redirect_init(pipe_type *parent, handle_type *child, REPROC_STREAM stream, reproc_redirect redirect, bool nonblocking, handle_type out)
+  REQ_(parent != NULL && child != NULL && (void *) parent != (void *) child)
+  REQ("C10/redirect_init.stream_valid", STREAM_OK(stream))
+  REQ("C10/redirect_init.operand_present", IMPLIES(RTYPE == RT_PATH, redirect.path != NULL) && IMPLIES(RTYPE == RT_FILE, redirect.file != NULL))
+  ASSIGNS(*parent, *child, g)
+  ENS("C10/redirect_init.pipe_parent_holds_other_end", IMPLIES(RV == 0 && RTYPE == RT_PIPE, FD_NEW(*parent) && FD_NEW(*child) && *parent != *child && ONLY_NEW2(*parent, *child) && g.obj[*child] >= OBJ_PIPE_BASE && (stream == REPROC_STREAM_IN ? ((g.obj[*child] & 1) == 0 && g.obj[*parent] == g.obj[*child] + 1) : ((g.obj[*parent] & 1) == 0 && g.obj[*child] == g.obj[*parent] + 1)) && CHILD_DIR_OK(stream, *child)))
+  ENS("C17/redirect_init.pipe_parent_end_mode_child_end_blocking", IMPLIES(RV == 0 && RTYPE == RT_PIPE, ((g.nonblock & MASK_OF(*parent)) != 0) == nonblocking && (g.nonblock & MASK_OF(*child)) == 0))
+  ENS("C11/redirect_init.created_descriptors_close_on_exec", IMPLIES(RV == 0 && (RTYPE == RT_PIPE || OPENS_FILE), (g.cloexec & MASK_OF(*child)) != 0 && IMPLIES(RTYPE == RT_PIPE, (g.cloexec & MASK_OF(*parent)) != 0)))
+  ENS("C10/redirect_init.parent_stream", IMPLIES(RV == 0 && RTYPE == RT_PARENT && !PARENT_FALLS_BACK, *child == g.cfg_std_fileno[stream] && FD_LEDGER_UNCHANGED))
+  ENS("C10/redirect_init.parent_stream_missing_means_null_device", IMPLIES(RV == 0 && RTYPE == RT_PARENT && PARENT_FALLS_BACK, FD_NEW(*child) && ONLY_NEW1(*child) && g.obj[*child] == OBJ_DEVNULL && CHILD_DIR_OK(stream, *child)))
+  ENS("C10/redirect_init.discard_is_null_device", IMPLIES(RV == 0 && RTYPE == RT_DISCARD, FD_NEW(*child) && ONLY_NEW1(*child) && g.obj[*child] == OBJ_DEVNULL && CHILD_DIR_OK(stream, *child)))
+  ENS("C10/redirect_init.path_opened_in_right_direction", IMPLIES(RV == 0 && RTYPE == RT_PATH, FD_NEW(*child) && ONLY_NEW1(*child) && CHILD_DIR_OK(stream, *child) && IMPLIES(redirect.path == g.cfg_path[0], g.obj[*child] == OBJ_PATH_BASE)))
+  ENS("C10/redirect_init.handle_is_users", IMPLIES(RV == 0 && RTYPE == RT_HANDLE, *child == redirect.handle && FD_LEDGER_UNCHANGED))
+  ENS("C10/redirect_init.file_is_users", IMPLIES(RV == 0 && RTYPE == RT_FILE, *child == g.cfg_file_fd && FD_LEDGER_UNCHANGED))
+  ENS("C10/redirect_init.stdout_shares_childs_stdout", IMPLIES(RV == 0 && RTYPE == RT_STDOUT, *child == out && FD_LEDGER_UNCHANGED))
+  ENS("C10/redirect_init.parent_end_only_for_pipes", IMPLIES(RV == 0 && RTYPE != RT_PIPE, *parent == -1))
+  ENS("C05/redirect_init.failure_leaves_no_descriptor", IMPLIES(RV != 0, FD_LEDGER_UNCHANGED && *parent == OLD(*parent) && *child == OLD(*child)))
+  ENS("C05/redirect_init.other_descriptors_untouched", FD_FRAME_EXCEPT(RV == 0 ? ((RTYPE == RT_PIPE ? MASK_OF(*parent) : 0u) | ((RTYPE == RT_PIPE || OPENS_FILE) ? MASK_OF(*child) : 0u)) : 0u))
+  ENS("C04/redirect_init.zero_or_negative_error", RV <= 0 && IMPLIES(RV < 0 && OLD(g.faults) == 0 && g.faults > 0, RV == -g.first_errno) && IMPLIES(RV < 0 && g.faults == OLD(g.faults), RV == -EINVAL || (RTYPE == RT_FILE && RV == -EBADF)))
+  ENS("C13/redirect_init.unknown_type_is_einval", IMPLIES(RTYPE == RT_DEFAULT || RTYPE > 7u, RV == -EINVAL && g.os_calls == OLD(g.os_calls)))
+  ENS("C14/redirect_init.nothing_else", g.child_pid == OLD(g.child_pid) && g.child_reaped == OLD(g.child_reaped) && g.child_live == OLD(g.child_live) && g.nsig == OLD(g.nsig) && g.reaps == OLD(g.reaps) && g.sigmask == OLD(g.sigmask) && g.now == OLD(g.now) && g.may_block == OLD(g.may_block))
+  ;
+#undef RTYPE
+
+#define DESTROY_CLOSES(t) ((unsigned) (t) == RT_PIPE || (unsigned) (t) == RT_DISCARD || (unsigned) (t) == RT_PATH)
+
+CONTRACT(redirect_destroy)
+handle_type redirect_destroy(handle_type child, REPROC_REDIRECT type)
+  REQ("C05/redirect_destroy.closes_only_library_descriptors", IMPLIES(child != -1 && DESTROY_CLOSES(type), IS_OPEN(child) && IS_LIB(child)))
+  ASSIGNS(g)
+  ENS("C05/redirect_destroy.returns_invalid", RV == -1)
+  ENS("C05/redirect_destroy.closes_what_the_library_opened", IMPLIES(DESTROY_CLOSES(type), g.open == (OLD(g.open) & ~MASK_OF(child)) && g.lib == (OLD(g.lib) & ~MASK_OF(child))))
+  ENS("C05/redirect_destroy.never_closes_user_or_parent_streams", IMPLIES(!DESTROY_CLOSES(type), FD_LEDGER_UNCHANGED && g.os_calls == OLD(g.os_calls)))
+  ENS("C05/redirect_destroy.others_keep_flags", FD_FRAME_EXCEPT(DESTROY_CLOSES(type) ? MASK_OF(child) : 0u))
+  ENS("C14/redirect_destroy.nothing_else", g.child_pid == OLD(g.child_pid) && g.child_reaped == OLD(g.child_reaped) && g.child_live == OLD(g.child_live) && g.nsig == OLD(g.nsig) && g.reaps == OLD(g.reaps) && g.sigmask == OLD(g.sigmask) && g.now == OLD(g.now))
+  ;
+
 /* ------------------------------ process.posix.c --------------------------- */
 
 CONTRACT(process_wait)
